@@ -322,6 +322,109 @@ class SReal(Sym):
         return self
 
 
+class SCx:
+    """
+    A complex number whose real and imaginary parts are symbolic (or concrete) reals.  Not a leaf: a pair of leaves with the
+    field operations of C, so that repository code written for Python complex scalars (abs, /, *, conjugate) runs on it.
+    """
+    __slots__ = ('re', 'im')
+    pytype = complex
+
+    def __init__(self, re, im=0.0):
+        self.re, self.im = re, im
+
+    @staticmethod
+    def lift(x):
+        if isinstance(x, SCx):
+            return x
+        if isinstance(x, complex):
+            return SCx(x.real, x.imag)
+        if _is_numlike(x):
+            return SCx(x, 0.0)
+        return None
+
+    def __repr__(self):
+        return f"<SCx {self.re!r} + i {self.im!r}>"
+
+    def __hash__(self):
+        raise Unsupported("hash of a symbolic complex value")
+
+    @property
+    def real(self):
+        return self.re
+
+    @property
+    def imag(self):
+        return self.im
+
+    def conjugate(self):
+        return SCx(self.re, -self.im)
+
+    conj = conjugate
+
+    def item(self):
+        return self
+
+    def __neg__(self):
+        return SCx(-self.re, -self.im)
+
+    def __pos__(self):
+        return self
+
+    def __add__(self, o):
+        o = SCx.lift(o)
+        return NotImplemented if o is None else SCx(self.re + o.re, self.im + o.im)
+    __radd__ = __add__
+
+    def __sub__(self, o):
+        o = SCx.lift(o)
+        return NotImplemented if o is None else SCx(self.re - o.re, self.im - o.im)
+
+    def __rsub__(self, o):
+        o = SCx.lift(o)
+        return NotImplemented if o is None else SCx(o.re - self.re, o.im - self.im)
+
+    def __mul__(self, o):
+        o = SCx.lift(o)
+        return NotImplemented if o is None else SCx(self.re * o.re - self.im * o.im, self.re * o.im + self.im * o.re)
+    __rmul__ = __mul__
+
+    def norm2(self):
+        return self.re * self.re + self.im * self.im
+
+    def __truediv__(self, o):
+        o = SCx.lift(o)
+        if o is None:
+            return NotImplemented
+        if isinstance(o.im, (int, float)) and o.im == 0:
+            return SCx(self.re / o.re, self.im / o.re)
+        d = o.norm2()
+        n = self * o.conjugate()
+        return SCx(n.re / d, n.im / d)
+
+    def __rtruediv__(self, o):
+        o = SCx.lift(o)
+        return NotImplemented if o is None else o.__truediv__(self)
+
+    def __abs__(self):
+        n2 = self.norm2()
+        if isinstance(n2, Sym):
+            return n2 ** 0.5
+        return float(n2) ** 0.5
+
+    def __eq__(self, o):
+        o = SCx.lift(o)
+        if o is None:
+            return False
+        return And(self.re == o.re, self.im == o.im)
+
+    def __ne__(self, o):
+        return Not(self.__eq__(o))
+
+    def __bool__(self):
+        return bool(Or(self.re != 0, self.im != 0))
+
+
 class SBool(Sym):
     pytype = bool
     __slots__ = ()
